@@ -8,6 +8,9 @@ from vf.ref.ecref import SECP256K1 as S
 from vf.runner import Acc, filler
 
 PROPERTY = "C08"
+# E6: seq_ops() indices of the operations that are interrupted at every line (vf/seqexplore.interrupted); probes = the whole alphabet
+INTERRUPT_X = [0, 5]
+INTERRUPT_PROBES = None
 CONCUR_FILES = ('bits/script/utils.py', 'bits/utils.py', 'bits/base58.py', 'bits/bips/bip173.py')
 # (thread a, thread b), warm-up: indices into seq_ops() - the ordinary single-case checks run concurrently (vf/concur.py)
 CONCUR_SCEN = [((0, 2), ()), ((5, 6), (0,)), ((3, 9), (2,)), ((5, 7), (5,)), ((0, 2, 5), ())]   # the last one: three threads
@@ -25,6 +28,7 @@ ASSUMPTIONS = ["templates: P2PKH 76 a9 14 h 88 ac; P2SH a9 14 h 87; witness OP_n
 OBLIGATIONS = {
     "concurrent_calls": "interleavings of two concurrent calls (single-case checks in two threads, cold and after warm-up calls)",
     "long_history": "operations executed in one long history (>= 1000 distinct operations, forward / forward / reverse)",
+    "interrupted_calls": "interruption points explored (an earlier call cut short by an asynchronous exception, then ordinary calls)",
     "history_sequences": "operation sequences (non-initial process states) explored",
     "witness_v1plus_len_other": "a valid v1+ address with a program length other than 20/32", "unknown_b58_version": "a checksum-valid "
     "Base58Check string with an unknown version byte", "corrupted_still_valid": "a corrupted address that is itself another valid address",
@@ -134,6 +138,9 @@ def run_case(kind, case):
     if kind == "concurcase":
         from vf import concur
         return concur.replay_cases(run_case, PROPERTY, case, CONCUR_FILES)
+    if kind == "interrupted":
+        from vf import seqexplore
+        return seqexplore.replay_interrupted(run_case, case)
     if kind == "seq":
         from vf import seqexplore
         return seqexplore.replay(run_case, case)
@@ -173,6 +180,8 @@ def jobs(tier, seed):
     js += seq_jobs(3, weight=4)
     from vf.runner import long_jobs
     js += long_jobs()
+    from vf.runner import interrupt_jobs
+    js += interrupt_jobs(len(INTERRUPT_X))
     from vf.runner import concur_jobs
     js += concur_jobs(len(CONCUR_SCEN) - (1 if tier == "quick" else 0))
     return js
@@ -187,6 +196,11 @@ def run_job(job):
     if job["part"] == "longhist":
         from vf.runner import run_long_job, default_long_ops
         return run_long_job(job, default_long_ops(seq_ops, job), run_case)
+    if job["part"] == "interrupted":
+        from vf.runner import run_interrupt_job
+        ops = [o for o in seq_ops(dict(job, part="interrupted", shard=[0, 1]))]
+        probes = ops if INTERRUPT_PROBES is None else [ops[i] for i in INTERRUPT_PROBES]
+        return run_interrupt_job(job, [ops[i] for i in INTERRUPT_X], probes, run_case, CONCUR_FILES)
     if job["part"] == "seq":
         from vf.runner import run_seq_job
         return run_seq_job(job, seq_ops(job), run_case, depth=3 if job["tier"] == "quick" else 4)
